@@ -55,6 +55,10 @@ type c08Case struct {
 	Prefix []string `json:"prefix,omitempty"`
 	Depth  int      `json:"depth,omitempty"`
 	NoFS   bool     `json:"nofs,omitempty"` // history on an engine made with New() (no file system)
+	// Ctor (presence): how the engine gets its file system: "" = NewFS(fs); withfs = New(WithFS(fs));
+	// replace = NewFS(other, WithFS(fs)) - the config files (theme.yml, data/*.yml) are read from
+	// the file system the engine ends up with
+	Ctor string `json:"ctor,omitempty"`
 }
 
 func (c *c08Case) Key() string { return core.KeyOf(c) }
@@ -252,6 +256,14 @@ func (c *c08Case) runPresence(ctx *core.Ctx) {
 	}
 
 	base := vuego.NewFS(files.FS())
+	switch c.Ctor {
+	case "withfs":
+		base = vuego.New(vuego.WithFS(files.FS()))
+	case "replace":
+		base = vuego.NewFS(Files{"theme.yml": "k: OTHER\nK: OTHER\n", "data/a.yml": "k: OTHERD\n", "page.vuego": "<p>other</p>"}.FS(), vuego.WithFS(files.FS()))
+	case "funcsfirst":
+		base = vuego.New(vuego.WithFuncs(vuego.FuncMap{"noop": func() string { return "" }}), vuego.WithFS(files.FS()), vuego.WithComponents())
+	}
 	var t vuego.Template = base
 	apply := func(t vuego.Template) vuego.Template {
 		steps := []string{"F", "A"}
@@ -702,6 +714,11 @@ func init() {
 									for _, rd := range []string{"must", "vif", "bind", "expr", "get"} {
 										for _, en := range []string{"render", "renderfile", "renderstring"} {
 											emit(&c08Case{Part: "presence", Mask: mask, Order: order, LoadAt: la, Fill: fill, Var: v, Type: typ, Read: rd, Entry: en})
+											if fill == "map" && typ == "string" {
+												for _, ctor := range []string{"withfs", "replace", "funcsfirst"} {
+													emit(&c08Case{Part: "presence", Mask: mask, Order: order, LoadAt: la, Fill: fill, Var: v, Type: typ, Read: rd, Entry: en, Ctor: ctor})
+												}
+											}
 										}
 									}
 								}
